@@ -510,6 +510,7 @@ def run(tier):
     C14.rule_R1e(res, prog, prop=PROP, rid="C07.R5e")
     rule_R6(res, prog)
     rule_R7(res, prog)
+    rule_R8(res, prog)
     return res.finish()
 
 
@@ -662,3 +663,34 @@ def rule_R7(res, prog):
     res.instance(rid, "chooseSigAlgInt: every `return %s` (%d path states) follows a successful canUseSigAlg test or the certificate's algorithm" % (rv["n"], nret),
                  bad is None, finding=f_)
     res.floor(rid, 1)
+
+
+def rule_R8(res, prog):
+    """RFC 6066 4: the max_fragment_length the client takes into use is the one it requested.  In the client's
+    ServerHello extension handler every store to ssl->maxPtFrag writes a constant V under the branch fact that the request
+    recorded in ssl->maxPtFrag had exactly that bit (ssl->maxPtFrag & V) - not a value computed from the server's byte."""
+    from sa import cfgutil as cu
+    from sa.pp import pp
+    rid = "C07.R8"
+    res.rule(rid, "client: max_fragment_length adopted from the ServerHello equals the requested one")
+    fn = prog.fn("ServerHelloExt")
+    gf = cu.guard_facts(fn)
+    n = 0
+    for b in fn.blocks:
+        for i, ln, x in cu.block_exprs(b):
+            for nd in walk(x):
+                if nd.get("k") == "bin" and nd["op"] == "=" and (strip(nd["l"]) or {}).get("f") == "maxPtFrag":
+                    n += 1
+                    r = strip(nd["r"])
+                    while r is not None and r.get("k") == "cast":
+                        r = strip(r["e"])
+                    facts = gf.get(b["id"], frozenset())
+                    ok = r is not None and r.get("k") == "int" and ("(ssl->maxPtFrag & %d)" % r["v"], True) in facts
+                    f_ = None
+                    if not ok:
+                        f_ = Finding(PROP, rid, fn.name, "fragment length adopted without matching the request",
+                                     "%s:%s ServerHelloExt(): ssl->maxPtFrag = %s is stored without the branch fact that this very length was "
+                                     "requested (ssl->maxPtFrag & <that constant>): a server can echo another legal code and the client runs "
+                                     "with a fragment length it never offered" % (fn.relfile, ln, pp(r)[:30]), file=fn.relfile, line=ln)
+                    res.instance(rid, "ServerHelloExt:%s maxPtFrag = %s under the matching request bit" % (ln, pp(r)[:20]), ok, finding=f_)
+    res.floor(rid, 4)
